@@ -5,6 +5,7 @@ import Mathlib.Algebra.Order.Field.Basic
 import Mathlib.Tactic.NormNum
 import Mathlib.Tactic.FieldSimp
 import Mathlib.Tactic.Linarith
+import Mathlib.Tactic.Ring
 import TaurexModel.Loaders
 
 set_option linter.unusedSectionVars false
@@ -455,5 +456,284 @@ theorem decHitran_encHitran (pair : String) (tab : CTab K) (hwf : tab.WF) (ht : 
       rw [← hr, gather_range]
     rw [this, List.map_snd_zip (by omega)]
   rw [hx]
+
+/-! ### HITRAN, any number of ranges: nothing negative reaches the unified table -/
+
+/-- all cross-sections of a `Tsigma` list are non-negative -/
+def NonnegTs (ts : List (K × List K)) : Prop := ∀ e ∈ ts, ∀ v ∈ e.2, 0 ≤ v
+
+theorem interpLin_nonneg {u v t a b : K} (hu : 0 ≤ u) (hv : 0 ≤ v) (h1 : a ≤ t) (h2 : t ≤ b) :
+    0 ≤ Interp.interpLin u v t a b := by
+  unfold Interp.interpLin
+  have hd : 0 ≤ b - a := by linarith
+  have hs0 : 0 ≤ (t - a) / (b - a) := div_nonneg (by linarith) hd
+  have hs1 : (t - a) / (b - a) ≤ 1 := div_le_one_of_le₀ (by linarith) hd
+  have e : u - (t - a) / (b - a) * (u - v) = (1 - (t - a) / (b - a)) * u + (t - a) / (b - a) * v := by ring
+  rw [e]
+  have := mul_nonneg (sub_nonneg.mpr hs1) hu
+  have := mul_nonneg hs0 hv
+  linarith
+
+theorem forall_zipWith {β γ δ : Type} (f : β → γ → δ) (R : δ → Prop) :
+    ∀ (l1 : List β) (l2 : List γ), (∀ x ∈ l1, ∀ y ∈ l2, R (f x y)) → ∀ v ∈ List.zipWith f l1 l2, R v
+  | [], _, _, v, hv => by simp at hv
+  | _ :: _, [], _, v, hv => by simp at hv
+  | x :: l1, y :: l2, h, v, hv => by
+    rw [List.zipWith_cons_cons, List.mem_cons] at hv
+    rcases hv with rfl | hv
+    · exact h x (by simp) y (by simp)
+    · exact forall_zipWith f R l1 l2 (fun a ha b hb => h a (by simp [ha]) b (by simp [hb])) v hv
+
+omit [Field K] [IsStrictOrderedRing K] in
+/-- on a sorted list `searchsorted(side='right')` splits exactly at `t` -/
+theorem lt_countP_iff_le (t : K) :
+    ∀ (l : List K), l.Pairwise (· ≤ ·) → ∀ (i : Nat) (h : i < l.length),
+      (i < l.countP (fun a => decide (a ≤ t)) ↔ l[i] ≤ t)
+  | [], _, i, h => by simp at h
+  | x :: xs, hp, i, h => by
+    rw [List.pairwise_cons] at hp
+    by_cases hx : x ≤ t
+    · rw [List.countP_cons]
+      simp only [hx, decide_true, if_true]
+      cases i with
+      | zero => simp [hx]
+      | succ j =>
+        have := lt_countP_iff_le t xs hp.2 j (by simpa using h)
+        simp only [List.getElem_cons_succ]
+        rw [Nat.succ_lt_succ_iff]
+        exact this
+    · have hall : ∀ a ∈ xs, ¬ a ≤ t := fun a ha hat => hx (le_trans (hp.1 a ha) hat)
+      have hc : (x :: xs).countP (fun a => decide (a ≤ t)) = 0 := by
+        rw [List.countP_eq_zero]
+        intro a ha
+        rw [List.mem_cons] at ha
+        rcases ha with rfl | ha
+        · simpa using hx
+        · simpa using hall a ha
+      rw [hc]
+      constructor
+      · intro h0; omega
+      · intro hle
+        exfalso
+        have hm : (x :: xs)[i] ∈ x :: xs := List.getElem_mem h
+        rw [List.mem_cons] at hm
+        rcases hm with hm | hm
+        · rw [hm] at hle; exact hx hle
+        · exact hall _ hm hle
+
+omit [Field K] [IsStrictOrderedRing K] in
+theorem foldl_pick_mem (f : K → K → K) (hf : ∀ a b, f a b = a ∨ f a b = b) :
+    ∀ (l : List K) (a : K), l.foldl f a = a ∨ l.foldl f a ∈ l
+  | [], a => Or.inl rfl
+  | x :: xs, a => by
+    rw [List.foldl_cons]
+    rcases foldl_pick_mem f hf xs (f a x) with h | h
+    · rcases hf a x with h' | h'
+      · left; rw [h, h']
+      · right; rw [h, h']; simp
+    · right; simp [h]
+
+theorem lmin_mem (l : List K) (h : l ≠ []) : lmin l ∈ l := by
+  cases l with
+  | nil => exact absurd rfl h
+  | cons x xs =>
+    unfold lmin
+    rcases foldl_pick_mem (fun a b => if b < a then b else a)
+      (by intro a b; by_cases hh : b < a <;> simp [hh]) (x :: xs) ((x :: xs).headD 0) with h1 | h1
+    · rw [h1]; simp
+    · exact h1
+
+omit [Field K] [IsStrictOrderedRing K] in
+theorem sortTs_perm (ts : List (K × List K)) : (sortTs ts).Perm ts := List.mergeSort_perm _ _
+
+omit [Field K] [IsStrictOrderedRing K] in
+theorem sortTs_sorted (ts : List (K × List K)) : (sortTs ts).Pairwise (fun a b => a.1 ≤ b.1) := by
+  have := List.pairwise_mergeSort (le := fun (a b : K × List K) => decide (a.1 ≤ b.1))
+    (by intro a b c hab hbc; simp only [decide_eq_true_eq] at *; exact le_trans hab hbc)
+    (by intro a b; simp only [Bool.or_eq_true, decide_eq_true_eq]; exact le_total _ _) ts
+  exact this.imp (by intro a b hab; simpa using hab)
+
+/-- what the loop of `fill_temperature` keeps true -/
+def FillInv (tmin : K) (ts : List (K × List K)) : Prop :=
+  ts.Pairwise (fun a b => a.1 ≤ b.1) ∧ NonnegTs ts ∧ tmin ∈ ts.map (·.1)
+
+theorem fillInv_sort_append (tmin : K) (ts : List (K × List K)) (e : K × List K) (h : FillInv tmin ts)
+    (he : ∀ v ∈ e.2, 0 ≤ v) : FillInv tmin (sortTs (ts ++ [e])) := by
+  obtain ⟨_, hn, hm⟩ := h
+  have hp := sortTs_perm (ts ++ [e])
+  refine ⟨sortTs_sorted _, ?_, ?_⟩
+  · intro x hx
+    have hx' := hp.mem_iff.mp hx
+    rw [List.mem_append, List.mem_singleton] at hx'
+    rcases hx' with hx' | rfl
+    · exact hn x hx'
+    · exact he
+  · rw [List.mem_map] at hm ⊢
+    obtain ⟨x, hx, hx1⟩ := hm
+    exact ⟨x, hp.mem_iff.mpr (by simp [hx]), hx1⟩
+
+theorem fillOne_inv (wn : List K) (tmin tmax : K) (ts : List (K × List K)) (t : K) (h : FillInv tmin ts) :
+    FillInv tmin (fillOne wn tmin tmax ts t) := by
+  unfold fillOne
+  simp only
+  by_cases hmem : memv t (ts.map (·.1)) = true
+  · simp only [hmem, if_true]; exact h
+  · simp only [hmem, Bool.false_eq_true, if_false]
+    by_cases hout : (decide (t < tmin) || decide (tmax < t)) = true
+    · simp only [hout, if_true]
+      apply fillInv_sort_append tmin ts _ h
+      intro v hv
+      simp only [List.mem_map] at hv
+      obtain ⟨_, _, rfl⟩ := hv
+      exact le_refl 0
+    · simp only [hout, Bool.false_eq_true, if_false]
+      apply fillInv_sort_append tmin ts _ h
+      -- the interpolated row
+      have hge : tmin ≤ t := by
+        simp only [Bool.or_eq_true, decide_eq_true_eq, not_or, not_lt] at hout
+        exact hout.1
+      obtain ⟨hsorted, hnn, hminmem⟩ := h
+      have hsortedT : (ts.map (·.1)).Pairwise (· ≤ ·) := by rw [List.pairwise_map]; exact hsorted
+      -- some stored temperature is ≤ t, so the count is positive
+      obtain ⟨j, hj, hjv⟩ := List.mem_iff_getElem.mp hminmem
+      have hcpos : j < (ts.map (·.1)).countP (fun a => decide (a ≤ t)) :=
+        (lt_countP_iff_le t _ hsortedT j hj).mpr (by rw [hjv]; exact hge)
+      show ∀ v ∈ List.zipWith _ _ _, 0 ≤ v
+      unfold Interp.searchRight
+      generalize hc : (ts.map (·.1)).countP (fun a => decide (a ≤ t)) = c at hcpos
+      by_cases hin : c < ts.length
+      · have hi : c - 1 < ts.length := by omega
+        have hi1 : c - 1 + 1 = c := by omega
+        rw [hi1]
+        have ea : ts.getD (c - 1) (0, []) = ts[c - 1] := by simp [List.getD_eq_getElem?_getD, hi]
+        have eb : ts.getD c (0, []) = ts[c] := by simp [List.getD_eq_getElem?_getD, hin]
+        rw [ea, eb]
+        have hlen : (ts.map (·.1)).length = ts.length := by simp
+        have hle : ts[c - 1].1 ≤ t := by
+          have := (lt_countP_iff_le t _ hsortedT (c - 1) (by omega)).mp (by rw [hc]; omega)
+          simpa using this
+        have hgt : t ≤ ts[c].1 := by
+          have := (lt_countP_iff_le t _ hsortedT c (by omega))
+          rw [hc] at this
+          have hnot : ¬ (ts.map (·.1))[c] ≤ t := fun hh => (lt_irrefl c) (this.mpr hh)
+          have : ¬ ts[c].1 ≤ t := by simpa using hnot
+          exact le_of_lt (not_le.mp this)
+        apply forall_zipWith
+        intro x hx y hy
+        exact interpLin_nonneg (hnn _ (List.getElem_mem hi) x hx) (hnn _ (List.getElem_mem hin) y hy) hle hgt
+      · have hi1 : c - 1 + 1 = c := by omega
+        rw [hi1]
+        have eb : ts.getD c (0, []) = (0, []) := by
+          simp [List.getD_eq_getElem?_getD, List.getElem?_eq_none (Nat.le_of_not_lt hin)]
+        rw [eb]
+        intro v hv
+        simp at hv
+
+theorem fillTemperature_nonneg (wn : List K) (ts : List (K × List K)) (temps : List K) (hne : ts ≠ [])
+    (hn : NonnegTs ts) : NonnegTs (fillTemperature wn (sortTs ts) temps) := by
+  unfold fillTemperature
+  simp only
+  have hne' : (sortTs ts).map (·.1) ≠ [] := by
+    intro h0
+    have := (sortTs_perm ts).length_eq
+    rw [List.map_eq_nil_iff] at h0
+    rw [h0] at this
+    exact hne (List.length_eq_zero_iff.mp this.symm)
+  have h0 : FillInv (lmin ((sortTs ts).map (·.1))) (sortTs ts) :=
+    ⟨sortTs_sorted ts, fun e he => hn e ((sortTs_perm ts).mem_iff.mp he), lmin_mem _ hne'⟩
+  have : ∀ (l : List K) (acc : List (K × List K)), FillInv (lmin ((sortTs ts).map (·.1))) acc →
+      FillInv (lmin ((sortTs ts).map (·.1)))
+        (l.foldl (fillOne wn (lmin ((sortTs ts).map (·.1))) (lmax ((sortTs ts).map (·.1)))) acc) := by
+    intro l
+    induction l with
+    | nil => intro acc h; exact h
+    | cons t l ih => intro acc h; exact ih _ (fillOne_inv wn _ _ acc t h)
+  exact (this temps _ h0).2.1
+
+/-- what the reading loop keeps true of every grid -/
+def GridsOk (grids : List (HGrid K)) : Prop := ∀ g ∈ grids, g.ts ≠ [] ∧ NonnegTs g.ts
+
+theorem upsert_ok (grids : List (HGrid K)) (key : K × K) (wn : List K) (e : K × List K) (h : GridsOk grids)
+    (he : ∀ v ∈ e.2, 0 ≤ v) : GridsOk (upsert grids key wn e) := by
+  unfold upsert
+  split_ifs
+  · intro g hg
+    rw [List.mem_map] at hg
+    obtain ⟨g0, hg0, rfl⟩ := hg
+    obtain ⟨h1, h2⟩ := h g0 hg0
+    split_ifs
+    · refine ⟨by simp, ?_⟩
+      intro x hx
+      rw [List.mem_append, List.mem_singleton] at hx
+      rcases hx with hx | rfl
+      · exact h2 x hx
+      · exact he
+    · exact ⟨h1, h2⟩
+  · intro g hg
+    rw [List.mem_append, List.mem_singleton] at hg
+    rcases hg with hg | rfl
+    · exact h g hg
+    · refine ⟨by simp, ?_⟩
+      intro x hx
+      rw [List.mem_singleton] at hx
+      subst hx; exact he
+
+theorem clipSigma_nonneg (s : K) : 0 ≤ clipSigma s := by
+  unfold clipSigma
+  simp only
+  split_ifs with h
+  · exact le_refl 0
+  · exact not_lt.mp h
+
+theorem hLoad_ok (blocks : List (HBlock K)) : GridsOk (hLoad blocks).2 := by
+  rw [hLoad_eq]
+  have : ∀ (bs : List (HBlock K)) (acc : List K × List (HGrid K)), GridsOk acc.2 → GridsOk (bs.foldl hStep acc).2 := by
+    intro bs
+    induction bs with
+    | nil => intro acc h; exact h
+    | cons b bs ih =>
+      intro acc h
+      apply ih
+      apply upsert_ok _ _ _ _ h
+      intro v hv
+      simp only [List.mem_map] at hv
+      obtain ⟨q, _, rfl⟩ := hv
+      exact clipSigma_nonneg _
+  exact this blocks _ (by intro g hg; simp at hg)
+
+theorem getD_mem_or_default {β : Type} (l : List β) (i : Nat) (d : β) : l.getD i d ∈ l ∨ l.getD i d = d := by
+  by_cases h : i < l.length
+  · left; exact getD_mem_of_lt l i d h
+  · right; simp [List.getD_eq_getElem?_getD, List.getElem?_eq_none (Nat.le_of_not_lt h)]
+
+theorem decHitran_eq (blocks : List (HBlock K)) :
+    decHitran blocks =
+      finalGrid ((hLoad blocks).1.mergeSort (fun a b => decide (a ≤ b)))
+        (fillGaps ((hLoad blocks).1.mergeSort (fun a b => decide (a ≤ b))) (hLoad blocks).2) := by
+  unfold decHitran
+  rfl
+
+theorem decHitran_nonneg (blocks : List (HBlock K)) : ∀ row ∈ (decHitran blocks).x, ∀ v ∈ row, 0 ≤ v := by
+  rw [decHitran_eq]
+  generalize (hLoad blocks).1.mergeSort (fun a b => decide (a ≤ b)) = temps
+  have hok := hLoad_ok blocks
+  have hfilled : ∀ g ∈ fillGaps temps (hLoad blocks).2, NonnegTs g.ts := by
+    intro g hg
+    simp only [fillGaps, List.mem_map] at hg
+    obtain ⟨g0, hg0, rfl⟩ := hg
+    exact fillTemperature_nonneg g0.wn g0.ts temps (hok g0 hg0).1 (hok g0 hg0).2
+  intro row hrow v hv
+  simp only [finalGrid, List.mem_map, List.mem_range] at hrow
+  obtain ⟨idx, _, rfl⟩ := hrow
+  simp only [gather, List.mem_map] at hv
+  obtain ⟨i, _, rfl⟩ := hv
+  rcases getD_mem_or_default ((fillGaps temps (hLoad blocks).2).flatMap fun g => (g.ts.getD idx (0, [])).2) i 0
+    with h | h
+  · rw [List.mem_flatMap] at h
+    obtain ⟨g, hg, hvg⟩ := h
+    rcases getD_mem_or_default g.ts idx (0, []) with h2 | h2
+    · exact hfilled g hg _ h2 _ hvg
+    · rw [h2] at hvg; simp at hvg
+  · rw [h]
 
 end Taurex.Loaders
